@@ -298,7 +298,9 @@ def gen_case(rng, tier, elems=None):
     case['pattern'] = pattern_src([tuple(e) for e in case['elems']], case['trailing'])
     # long random paths assembled from valid segments with mutations
     segpool = ['a', 'b', 'a-1', 'x_y', '1', '5', '15', '-5', '+1', ' 5', '+ 5', '1.5', '.5', '5.', '1e5', '1e+5', '-.5e-1',
-               'e', '1e', '.', '-', '+', 'ab', 'é', '5a', ' ', '1 5', '0' * 30]
+               'e', '1e', '.', '-', '+', 'ab', 'é', '5a', ' ', '1 5', '0' * 30,
+               # the same spellings in the other case: literal segments are case-sensitive, float exponents are not
+               'A', 'B', 'A-1', 'X_Y', '1E5', '1E+5', '-.5E-1', 'É']
     extra = []
     for _ in range(40):
         k = rng.randint(0, 8)
@@ -312,10 +314,10 @@ def gen_case(rng, tier, elems=None):
         segs = []
         for e in case['elems']:
             if e[0] == 'lit':
-                segs.append(e[1] if rng.random() < 0.9 else 'zz')
+                segs.append(e[1] if rng.random() < 0.8 else rng.choice(['zz', e[1].upper(), e[1].capitalize()]))
             else:
                 cnt = rng.choice([0, 1, 1, 2, 3]) if e[1] in ('*', '+') else rng.choice([0, 1, 1, 1])
-                pool = {'int': ['1', '-5', '+1', ' 5', '+ 5', '007'], 'float': ['1.5', '.5', '5.', '1e5', '- 1.5', '5'],
+                pool = {'int': ['1', '-5', '+1', ' 5', '+ 5', '007'], 'float': ['1.5', '.5', '5.', '1e5', '- 1.5', '5', '1E5', '2.5E-3'],
                         }.get(e[2], ['a', 'b', '1', 'x y'])
                 segs += [rng.choice(pool) for _ in range(cnt)]
         s = ''.join('/' * rng.choice([1, 1, 1, 1, 2]) + x for x in segs) + '/' * rng.choice([0, 1, 1, 2])
